@@ -358,6 +358,12 @@ def _violation(case, ir):
                 want_out.append(('W', _words(d['desc'])))
     if expect_err is None and not printed and any(d['man'] for d in ds):
         expect_err = 'err'
+    # the same object prints its usage again after the evaluation (again=<n>): every printing lists exactly the
+    # visible arguments under the settings in force
+    m_again = re.search(r' again=(\d+)', case)
+    if m_again and expect_err is None:
+        for _ in range(int(m_again.group(1))):
+            want_out += expected_usage(p, ds)
     if expect_err:
         return None if res.startswith(expect_err) else ('outcome', 'expected %s, got %s' % (expect_err, res[:80]))
     if res.startswith('err:'):
@@ -794,6 +800,11 @@ def gen_cases(tier, rng):
                 for cont in ([], ['hs'], ['hl'], ['hs', 'hl'], ['hl', 'hs']):
                     cmds = (['ph'] if ph else []) + (['pd'] if pd else []) + cont + ['h']
                     cases.append(mk_case(f, 80, cmds, args))
+                    if len(cont) < 2 and (ph + pd + uh + ud + len(cont)) % 2 == 0:
+                        # the usage printed again by the same object, once and twice; also without -h before
+                        cases.append(mk_case(f, 80, cmds, args) + ' again=%d' % (1 + (ph + ud) % 2))
+                        if not any('m' in a['letters'] for a in args):
+                            cases.append(mk_case(f, 80, cmds[:-1], args) + ' again=2')
     nrand = 1500 if tier == 'quick' else 15000
     for _ in range(nrand):
         f = rflags(rng)
@@ -840,7 +851,8 @@ def gen_cases(tier, rng):
                 t2 = (rng.choice('abu'), rusage_text(rng))
             elif rng.chance(1, 12):
                 t1, t2 = None, t1           # only the second text: refused
-        cases.append(mk_case(f, width, cmds, args, t1, t2))
+        again = ' again=%d' % rng.range(1, 3) if rng.chance(1, 8) else ''
+        cases.append(mk_case(f, width, cmds, args, t1, t2) + again)
     return {'cases': cases, 'exhaustive': True,
             'scopes': ['exhaustive: %d argument sets (one covering mandatory x hidden x deprecated x short/long/both) x '
                        'usage-hidden x usage-deprecated flags x --print-hidden x --print-deprecated x '
